@@ -239,7 +239,7 @@ pub fn build_source(rng: &mut Rng, kind: usize, dir: &Path, max_tiles: usize) ->
 					} else {
 						None
 					};
-					sources.add(&format!("s{i}.x"), Src::Mem { ts: ts.clone(), pyramid, default_stream: rng.chance(0.3) });
+					sources.add(&format!("s{i}.x"), Src::Mem { ts: ts.clone(), pyramid, default_stream: rng.chance(0.3), yields: if rng.chance(0.3) { rng.range(1, 3) as u32 } else { 0 }, open_yields: if rng.chance(0.3) { rng.range(1, 4) as u32 } else { 0 } });
 				}
 				names.push(format!("s{i}.x"));
 			}
